@@ -152,6 +152,15 @@ def build(case):
     elif kind == 'multi':
         pool = {'M': M, 'S': docs.second_lexicon(v),
                 'T': docs.second_lexicon(v, 'th')}
+        if case.get('sframes'):
+            # every lexicon of the resource owns a SyntacticBehaviour without an id (entry level in 1.0, an
+            # unused lexicon-level frame otherwise)
+            for k in ('S', 'T'):
+                lx = pool[k]
+                if v == '1.0':
+                    lx['entries'][0]['frames'] = [{'subcategorizationFrame': f'{k} frame', 'senses': [lx['entries'][0]['senses'][0]['id']]}]
+                else:
+                    lx['frames'] = [{'subcategorizationFrame': f'{k} frame'}]
         if 'X' in case['order']:        # an extension of M in the same resource as M
             pool['X'] = docs.extension(v, docs.maximal(v, flags=('annot',)), flags=('annot',))
             pool['M'] = docs.maximal(v, flags=('annot',))
